@@ -177,8 +177,17 @@ def handle (args out : List String) : Verdict :=
             (if insOk then "" else s!" final-instances:expected={expIns}/{expInsW}:got={sortNat (inAddrs idump)}/{sortNat (inWrites idump)}"))
         else if op == "fault" then
           -- a storage fault hit one removal: at most one outdated server per fault may survive the pass
+          -- — and every survivor is one of the OUTDATED planted servers (a fault never removes a fresh server, never leaves a
+          -- different one behind): outdated = not written since the cutoff the pass computed at its start
           let faults := ((ieff.splitOn ",").filter fun e => e.startsWith "fault").length
-          (decide (finalAddrs.length ≤ faults), s!"fault:survivors={finalAddrs.length}:faults={faults}")
+          let cutoff : Int := (match (m.specs[0]? : Option USpec) with | some (USpec.clean ret) => m.s0.clock - ret | _ => 0)
+          let outdated := othersBy m.s0.abs cutoff true none
+          let freshOnes := othersBy m.s0.abs cutoff false none
+          let strangers := finalAddrs.filter fun x => !outdated.contains x && !freshOnes.contains x
+          let freshLost := freshOnes.filter fun x => !finalAddrs.contains x
+          let isClean := match (m.specs[0]? : Option USpec) with | some (USpec.clean _) => true | _ => false
+          (isClean && decide ((finalAddrs.filter outdated.contains).length ≤ faults) && strangers.isEmpty && freshLost.isEmpty,
+           s!"fault:survivors={finalAddrs}:faults={faults}:outdated={outdated}:fresh-removed={freshLost}:not-planted={strangers}")
         else
           -- race: client 1 refreshes its server during the pass: it must survive; the other planted servers are removed
           -- exactly when they were not written since the cutoff the pass computed at its start
@@ -196,7 +205,10 @@ def handle (args out : List String) : Verdict :=
             let r := results.getD 1 ""
             let survived := match a with | some a => finalAddrs.contains a | none => false
             let othersOk := (staleOthers a).all (fun x => !finalAddrs.contains x) && (freshOthers a).all finalAddrs.contains
-            ((if r == "ok" then survived else true) && othersOk,
+            -- any other result (not `ok`, not "the server is gone": `err:notfound` from the repository, `err:noserver` from the
+            -- use case) is not understood and fails
+            let gone := r == "err:notfound" || r == "err:noserver"
+            ((if r == "ok" then survived else gone && !survived) && othersOk,
              s!"race:keepalive={r}:survives={survived}:others-as-expected={othersOk}")
           | some (USpec.raw _) =>
             -- another node's refresh, planted as a raw update: its refresh time is what that node's (lagging) clock said — a
@@ -212,8 +224,14 @@ def handle (args out : List String) : Verdict :=
                 let must : Bool := laterThan refreshed cutoff
                 let othersOk := (staleOthers (some a)).all (fun x => !finalAddrs.contains x) && (freshOthers (some a)).all finalAddrs.contains
                 ((if must then survived else true) && othersOk, s!"race:raw-refresh={refreshed}:cutoff={cutoff}:survives={survived}:others-as-expected={othersOk}")
-              | none => (true, "")
-            else (true, "")
+              | none => (false, s!"race:raw-refresh-result-unparsable:{r.take 120}")
+            else
+              -- the update found the server already removed (the pass got there first): legitimate — the server named by the
+              -- raw update is then gone, the others are as expected; any other result is not understood and fails
+              let a := match (m.specs[1]? : Option USpec) with | some (USpec.raw (.w _ svr _)) => some svr.addr.render | _ => none
+              let survived := match a with | some a => finalAddrs.contains a | none => true
+              let othersOk := (staleOthers a).all (fun x => !finalAddrs.contains x) && (freshOthers a).all finalAddrs.contains
+              (r == "err:notfound" && !survived && othersOk, s!"race:raw-refresh-result={r.take 120}:survives={survived}:others-as-expected={othersOk}")
           | _ => (false, "race:unexpected-client")
       let fin := !(results.any fun r => r == "hung" || r.startsWith "panic") && !(ieff.endsWith "HUNG")
       verdict same (ok && fin) (dinfo ++ (cond (ok && fin) "" why))
